@@ -39,6 +39,7 @@ type Program struct {
 	RecShape []string
 
 	sameNames   bool
+	unhashable  bool
 	recDefaults bool
 	curFile     *File
 	goRot       int
@@ -70,6 +71,8 @@ type TypeRef struct {
 	Key  *TypeRef // map
 	Elem *TypeRef // list, set, map value
 	Ref  *Ref
+	// Slice: a set written `set<T> (go.type = "slice")` (generated as a Go slice)
+	Slice bool
 }
 
 type Req int
@@ -164,6 +167,8 @@ type Options struct {
 	NoServices   bool
 	StructConsts bool // constants (and defaults) of struct type written as map literals
 	RecDefaults  bool // recursive structures whose back-pointer has a struct-constant default (open finding F6)
+	Unhashable   bool // map keys and set elements that are lists, sets, maps or structs (generated as slices of pairs / slices)
+	Annotations  bool // go.tag / go.nolog / go.redact / go.label / go.type annotations on struct fields
 	Recursive    bool // recursive types: a struct reaching itself through typedef chains / containers / other structs
 }
 
@@ -244,6 +249,7 @@ func Gen(o Options) *Program {
 	}
 	// definitions, created leaf files first so that includers can refer to them
 	p.sameNames = o.SameNames
+	p.unhashable = o.Unhashable
 	p.recDefaults = o.RecDefaults
 	for i := nf - 1; i >= 0; i-- {
 		f := p.Files[i]
@@ -745,7 +751,7 @@ func (p *Program) genType(f *File, depth int, o Options) *TypeRef {
 		case 0:
 			return &TypeRef{Base: "list", Elem: p.genType(f, depth+1, o)}
 		case 1:
-			return &TypeRef{Base: "set", Elem: p.genKeyType(f)}
+			return &TypeRef{Base: "set", Elem: p.genKeyType(f), Slice: o.Annotations && simrt.Flip("type.set-as-slice", 0.25)}
 		default:
 			return &TypeRef{Base: "map", Key: p.genKeyType(f), Elem: p.genType(f, depth+1, o)}
 		}
@@ -757,6 +763,22 @@ func (p *Program) genType(f *File, depth int, o Options) *TypeRef {
 }
 
 func (p *Program) genKeyType(f *File) *TypeRef {
+	if p.unhashable && simrt.Flip("type.key-unhashable", 0.2) {
+		switch ch("type.key-unhashable-kind", 4) {
+		case 0:
+			return &TypeRef{Base: "list", Elem: &TypeRef{Base: "i32"}}
+		case 1:
+			return &TypeRef{Base: "set", Elem: &TypeRef{Base: "string"}}
+		case 2:
+			return &TypeRef{Base: "map", Key: &TypeRef{Base: "string"}, Elem: &TypeRef{Base: "i64"}}
+		default:
+			if structs := p.visible(f, KStruct); len(structs) > 0 {
+				d := structs[ch("type.key-struct", len(structs))]
+				return &TypeRef{Ref: &Ref{d.File, d.Name}}
+			}
+			return &TypeRef{Base: "list", Elem: &TypeRef{Base: "string"}}
+		}
+	}
 	enums := p.visible(f, KEnum)
 	if len(enums) > 0 && simrt.Flip("type.key-enum", 0.2) {
 		d := enums[ch("type.key-ref", len(enums))]
@@ -801,6 +823,22 @@ func (p *Program) genFields(f *File, prefix string, max int, o Options, union bo
 						fd.Default = p.genValue(f, fd.Type, o, 1)
 					}
 				}
+			}
+		}
+		if o.Annotations && prefix == "fld" && simrt.Flip("field.annotated", 0.2) {
+			switch ch("field.annotation", 6) {
+			case 0:
+				fd.Annot = fmt.Sprintf(`(go.tag = "json:\"j%d\"")`, id)
+			case 1:
+				fd.Annot = fmt.Sprintf(`(go.tag = "json:\"-\" yaml:\"y%d,flow\"")`, id)
+			case 2:
+				fd.Annot = `(go.nolog = "true")`
+			case 3:
+				fd.Annot = `(go.redact = "true")`
+			case 4:
+				fd.Annot = fmt.Sprintf(`(go.label = "lbl%d")`, id)
+			default:
+				fd.Annot = fmt.Sprintf(`(go.tag = "db:\"c%d\"", go.label = "dbl%d")`, id, id)
 			}
 		}
 		out = append(out, fd)
@@ -1146,6 +1184,9 @@ func (p *Program) TypeText(from int, t *TypeRef) string {
 	case t.Base == "list":
 		return "list<" + p.TypeText(from, t.Elem) + ">"
 	case t.Base == "set":
+		if t.Slice {
+			return "set<" + p.TypeText(from, t.Elem) + "> (go.type = \"slice\")"
+		}
 		return "set<" + p.TypeText(from, t.Elem) + ">"
 	case t.Base == "map":
 		return "map<" + p.TypeText(from, t.Key) + ", " + p.TypeText(from, t.Elem) + ">"
